@@ -143,6 +143,7 @@ pub struct ChainWorld {
     pub rep_direct: BTreeMap<Blk, u32>,
     pub rep_skip: BTreeMap<u64, u32>,
     pub waiters: BTreeMap<u64, oneshot::Receiver<BlockId>>,
+    pub abandoned: BTreeSet<u64>,
     pub woken: BTreeMap<u64, Blk>,
     pub max_finalized_seen: u64,
 }
@@ -157,7 +158,7 @@ impl ChainSys {
                 Op::Vote(v) => v.slot,
                 Op::Cert(c) => c.slot,
                 Op::Block { blk, .. } => blk.slot,
-                Op::Wait(s) => *s,
+                Op::Wait(s) | Op::WaitAbandoned(s) => *s,
                 _ => 0,
             })
             .max()
@@ -376,6 +377,7 @@ impl Sys for ChainSys {
             rep_direct: BTreeMap::new(),
             rep_skip: BTreeMap::new(),
             waiters: BTreeMap::new(),
+            abandoned: BTreeSet::new(),
             woken: BTreeMap::new(),
             max_finalized_seen: 0,
         }
@@ -391,7 +393,9 @@ impl Sys for ChainSys {
         }
         match &self.ops[action as usize] {
             // registering a second waiter for a not-ready slot is a caller error
-            Op::Wait(s) => !w.waiters.contains_key(s),
+            Op::Wait(s) => !w.waiters.contains_key(s) && !w.abandoned.contains(s),
+            // only while nothing is ready and no live waiter exists (a second registration is a caller error)
+            Op::WaitAbandoned(s) => !w.waiters.contains_key(s) && !w.abandoned.contains(s) && w.rf.parents_ready(*s).is_empty(),
             _ => true,
         }
     }
@@ -471,6 +475,12 @@ impl Sys for ChainSys {
                     w.rf.links.entry(*blk).or_insert(*parent);
                 }
                 o
+            }
+            Op::WaitAbandoned(s) => {
+                // nothing observable may depend on a waiter nobody listens to any more
+                w.abandoned.insert(*s);
+                drop(w.pool.pool.wait_for_parent_ready(Slot::new(*s)));
+                Out::default()
             }
             Op::Wait(s) => {
                 let r = w.pool.pool.wait_for_parent_ready(Slot::new(*s));
@@ -757,6 +767,6 @@ fn op_class(op: &Op) -> String {
         Op::Cert(c) => format!("cert-{:?}", c.kind),
         Op::Block { .. } => "block".into(),
         Op::Standstill => "standstill".into(),
-        Op::Wait(_) => "wait".into(),
+        Op::Wait(_) | Op::WaitAbandoned(_) => "wait".into(),
     }
 }
